@@ -469,7 +469,6 @@ def negative_tests(packets):
     expect("reserved1", mod(0, lambda b: b.__setitem__(0, b[0] | 0x01)), "obu_reserved_1bit set")
     expect("restype", mod(0, lambda b: b.__setitem__(seq.offset, (b[seq.offset] & 0x87) | (9 << 3))), "reserved obu type 9")
     expect("truncated", mod(0, lambda b: b[:-3]), "obu size exceeds packet")
-    expect("extra", mod(0, lambda b: b + b"\x00\x00"), "first OBU is not", packet=0) if False else None
     expect("no_td", mod(0, lambda b: b[2:]), "first OBU is not a temporal delimiter")
     expect("td_size", mod(0, lambda b: bytes([0x12, 0x01, 0x00]) + b[2:]), "temporal delimiter with nonzero size")
     expect("two_td", mod(0, lambda b: b[:2] + b), "more than one temporal delimiter")
@@ -505,9 +504,11 @@ def negative_tests(packets):
             except ap.ParseError:
                 pass
         r = ap.BitReader(bytes([0b10110100, 0xFF]))
-        assert (r.f(1), r.su(3), r.ns(5), r.f(2)) == (1, 3, 2, 0) and r.uvlc() == 0
-        r = ap.BitReader(bytes([0b00101100, 0x34, 0x12]))
-        assert r.uvlc() == 5 and r.byte_alignment() and r.le(2) == 0x1234
+        assert (r.f(1), r.su(3), r.ns(5), r.f(2)) == (1, 3, 1, 0) and r.uvlc() == 0
+        r = ap.BitReader(bytes([0b00101000, 0x34, 0x12]))
+        assert r.uvlc() == 4 and r.byte_alignment() and r.le(2) == 0x1234
+        r = ap.BitReader(bytes([0b11110101]))
+        assert (r.ns(5), r.su(3), r.ns(1)) == (4, -3, 0) and not r.byte_alignment()
     except AssertionError:
         fails.append("descriptor unit tests failed")
     # garbage never raises
@@ -729,7 +730,10 @@ def check_stream(name, prefix, case, packets, dec, full, info, svt=True):
                 os.unlink(prefix + ext)
             except OSError:
                 pass
-    return {"name": name, "fails": fails, "info": info}
+    res = {"name": name, "fails": fails, "info": info}
+    if name == "basic" and svt:
+        res["packets"] = packets
+    return res
 
 
 # ---------------------------------------------------------------- second stream source: libaom's encoder
@@ -1137,6 +1141,10 @@ def main(argv):
                     res = fu.result()
                 except Exception as e:      # noqa: BLE001
                     res = {"name": futs[fu], "fails": ["exception: %r" % e], "info": {}}
+                if res.get("packets"):
+                    nf = negative_tests(res["packets"])
+                    res["fails"] = res["fails"] + nf
+                    res["info"]["negative_tests"] = "failed" if nf else "passed"
                 if res.get("skipped"):
                     skipped.append(res["name"])
                     print("SKIP %s: %s" % (res["name"], res["skipped"]))
